@@ -104,6 +104,28 @@ func VerifC13Arbitrary() {
 		vrt.Assert(used > 0, "arb/returned-pkg=>consumed>0")
 		vrt.Assert(used <= n, "arb/returned-pkg=>consumed<=len")
 	}
+	if n >= 16 {
+		// reference reading of the fixed header: magic, total length (32 bit), head length (16 bit)
+		magic := data[0] == 0xda && data[1] == 0xda
+		total := uint32(data[3])<<24 | uint32(data[4])<<16 | uint32(data[5])<<8 | uint32(data[6])
+		hl := uint32(data[7])<<8 | uint32(data[8])
+		switch {
+		case !magic:
+			vrt.Assert(err != nil && pkg == nil, "arb/wrong-magic=>error")
+		case hl < 16 || hl > total:
+			vrt.Reach("arb/inconsistent-lengths")
+			vrt.Assert(err != nil && pkg == nil, "arb/inconsistent-lengths=>error")
+		case total > uint32(n):
+			// a well-formed header of a frame that has not arrived completely - whatever its size
+			vrt.Reach("arb/incomplete-frame")
+			vrt.Assert(err == nil && pkg == nil, "arb/incomplete-frame=>wait-for-more")
+		default:
+			vrt.Reach("arb/complete-frame")
+			if err == nil && pkg != nil {
+				vrt.Assert(uint32(used) == total, "arb/complete-frame=>consumes-its-total-length")
+			}
+		}
+	}
 	if n >= 1 && n < 16 {
 		isPrefix := data[0] == 0xda
 		if n >= 2 {
